@@ -141,6 +141,36 @@ type srvConn struct {
 	failed   int32 // a write was attempted after the connection died
 	errMu    sync.Mutex
 	writeErr string // the first error a real write returned (diagnostics)
+	// per write: the deadline the server set for it and how the write went (stall scenario)
+	lastSet       time.Time     // when SetWriteDeadline(non-zero) was called
+	lastRemaining time.Duration // deadline - now at that moment
+	writes        []writeRec
+}
+
+// writeRec: one Write the server made on the connection.
+type writeRec struct {
+	remaining time.Duration // time the server allowed for it (deadline - now when it was set); 0 = no deadline set
+	gap       time.Duration // from SetWriteDeadline to the start of Write
+	dur       time.Duration // duration of Write
+	err       string
+}
+
+func (s *srvConn) SetWriteDeadline(t time.Time) error {
+	now := time.Now()
+	s.errMu.Lock()
+	if t.IsZero() {
+		s.lastSet, s.lastRemaining = time.Time{}, 0
+	} else {
+		s.lastSet, s.lastRemaining = now, t.Sub(now)
+	}
+	s.errMu.Unlock()
+	return s.Conn.SetWriteDeadline(t)
+}
+
+func (s *srvConn) writeLog() []writeRec {
+	s.errMu.Lock()
+	defer s.errMu.Unlock()
+	return append([]writeRec(nil), s.writes...)
 }
 
 var errDead = fmt.Errorf("write: connection is dead (harness)")
@@ -150,14 +180,26 @@ func (s *srvConn) Write(b []byte) (int, error) {
 		atomic.StoreInt32(&s.failed, 1)
 		return 0, errDead
 	}
+	start := time.Now()
+	s.errMu.Lock()
+	rec := writeRec{remaining: s.lastRemaining}
+	if !s.lastSet.IsZero() {
+		rec.gap = start.Sub(s.lastSet)
+	}
+	s.errMu.Unlock()
 	n, err := s.Conn.Write(b)
+	rec.dur = time.Since(start)
+	s.errMu.Lock()
 	if err != nil {
-		s.errMu.Lock()
+		rec.err = err.Error()
 		if s.writeErr == "" {
 			s.writeErr = err.Error()
 		}
-		s.errMu.Unlock()
 	}
+	if len(s.writes) < 4096 {
+		s.writes = append(s.writes, rec)
+	}
+	s.errMu.Unlock()
 	return n, err
 }
 
